@@ -67,6 +67,71 @@ func badDefer(a int) int   { defer ok1(a, a); return a }
 func ok5(a int) int     { for i := 0; i < a; i++ { a-- }; return a }
 func ok6(a int) int   { for a > 0 { a-- }; return a }
 func ok7(a int) int { for { a--; if a < 0 { break } }; return a }
+type result struct { b []byte; err error }
+func okIdiom(x []byte) ([]byte, error) {
+	cr := make(chan *result)
+	go func() {
+		if len(x) == 0 {
+			cr <- &result{b: nil, err: nil}
+
+			return
+		}
+		cr <- &result{b: x, err: nil}
+	}()
+	r := <-cr
+	return r.b, r.err
+}
+func badIdiomTwoSends(x []byte) ([]byte, error) {
+	cr := make(chan *result)
+	go func() {
+		cr <- &result{b: x, err: nil}
+		cr <- &result{b: x, err: nil}
+	}()
+	r := <-cr
+	return r.b, r.err
+}
+func badIdiomNoReturn(x []byte) ([]byte, error) {
+	cr := make(chan *result)
+	go func() {
+		if len(x) == 0 {
+			cr <- &result{b: nil, err: nil}
+		}
+		cr <- &result{b: x, err: nil}
+	}()
+	r := <-cr
+	return r.b, r.err
+}
+func badIdiomNoFinalSend(x []byte) ([]byte, error) {
+	cr := make(chan *result)
+	go func() {
+		if len(x) == 0 {
+			cr <- &result{b: nil, err: nil}
+
+			return
+		}
+	}()
+	r := <-cr
+	return r.b, r.err
+}
+func badIdiomChanElsewhere(x []byte) ([]byte, error) {
+	cr := make(chan *result)
+	go func() {
+		cr <- &result{b: x, err: nil}
+	}()
+	r := <-cr
+	close(cr)
+	return r.b, r.err
+}
+func badIdiomLate(x []byte) ([]byte, error) {
+	cr := make(chan *result)
+	go func() {
+		cr <- &result{b: x, err: nil}
+	}()
+	y := len(x)
+	r := <-cr
+	_ = y
+	return r.b, r.err
+}
 func badSelect(c chan int) int { select { case <-c: return 1; default: }; return 0 }
 func badShadow(a int) int  { if a > 0 { a := 1; return a }; return a }
 func badFall(a int) int    { switch a { case 1: a = 2; fallthrough; case 2: a = 3 }; return a }
@@ -114,6 +179,20 @@ func TestBodySubset(t *testing.T) {
 				{Dir: "util", Recv: "T", Name: "ok4", Lean: "ok4",
 					State: []StateVar{{Key: "recv.buf", Lean: "buf", Ty: "bytes"}, {Key: "recv.n", Lean: "cnt", Ty: "int"}}}}}
 		_ = os.WriteFile(dump, []byte(GenBodies(f)), 0o644)
+	}
+	// the synchronous-goroutine idiom: exactly the shape, or an unsupported marker
+	idiom := func(name string) string {
+		return GenBody(&FnSpec{Dir: "util", Name: name, Lean: name,
+			Go:   &GoIdiom{ResultType: "result", Fields: map[string]string{"b": "bytes", "err": "error"}},
+			Vals: map[string]Val{"r.b": {Lean: "r_b", Ty: "bytes"}, "r.err": {Lean: "r_err", Ty: "error"}}})
+	}
+	if out := idiom("okIdiom"); strings.Contains(out, "unsupported_") || !strings.Contains(out, "let r_b : Bytes := x") {
+		t.Errorf("okIdiom:\n%s", out)
+	}
+	for _, name := range []string{"badIdiomTwoSends", "badIdiomNoReturn", "badIdiomNoFinalSend", "badIdiomChanElsewhere", "badIdiomLate"} {
+		if out := idiom(name); !strings.Contains(out, "unsupported_goroutine_idiom") {
+			t.Errorf("%s: deviates from the idiom but rendered without unsupported_goroutine_idiom:\n%s", name, out)
+		}
 	}
 	// an indexing body has an Option result and carries its bounds tests
 	out = GenBody(&FnSpec{Dir: "util", Name: "ok2", Lean: "ok2"})
